@@ -23,7 +23,7 @@ def plan(tier, seed):
     tables = {
         "SP": [[[0, 1], [1, 2]], [[0, 2], [1, 1]], [[0, 1], [1, 1]]],
         "WFQ": [[[0, 1], [1, 2]], [[0, 2], [1, 1]]],
-        "VC": [[[0, 1], [1, 2]], [[0, 2], [1, 1]]],
+        "VC": [[[0, 1], [1, 2]], [[0, 2], [1, 1]], [[0, 0], [1, 1]]],
         "DRR": [[[0, 1], [1, 2]], [[0, 2], [1, 2]]],
         "RR": [[[0, 1], [1, 1]], [[1, 1], [0, 1]]],
         "WRR": [[[0, 1], [1, 2]], [[0, 2], [1, 1]]],
@@ -64,6 +64,8 @@ def plan(tier, seed):
                              order=0, map="id"))
             cfgs.append(dict(sched=kind, table=tabs[0], rate=(8000 if kind == "DRR" else 8), flows=[0, 1],
                              sizes=([1000, 2000] if kind == "DRR" else [1, 2]), N=6, gaps=["S", 1], order=0, map="id"))
+    # bursts of one flow: with a zero vtick all of them carry one stamp
+    cfgs.append(dict(sched="VC", table=[[0, 0], [1, 1]], rate=8, flows=[0, 1], sizes=[1], N=6 if quick else 7, gaps=["S", 1], order=0, map="id"))
     return {"cfgs": cfgs, "budget": None,
             "bound": "N<=%d full menu (21/packet), N<=%d reduced menu%s; 6 schedulers x tables x rates x creation order; "
                      "monitor in/excl; flow->class maps identity/all-to-one/swap" % (nfull, nfull + 1, "" if quick else ", N<=6 on {same,+1}; 3 flows N<=4")}
